@@ -376,6 +376,45 @@ EXPR_T = "nodes::expressions::Expression"
 LUA_RESERVED = set(c09.LUA_KEYWORDS)
 
 
+FORMAT_VALUE = {"json5": "serde_json::value::Value", "serde_json": "serde_json::value::Value", "serde_yaml": "serde_yaml::value::Value", "toml": "toml::value::Value"}
+
+
+def native_value(R, ctx):
+    """A document is read into the value model of ITS OWN format (no lossy intermediate)."""
+    rid = "C14.native-value"
+    R.rule(rid, "every call or function value of a format's deserializer (json5 / serde_json / serde_yaml / toml `from_str`, `from_slice`, "
+                "`from_reader`) in the library and the CLI that is instantiated at a generic document type is instantiated at that format's own "
+                "`Value`: serde_json::Value cannot hold non-finite numbers or non-string keys, so YAML `.inf` / `{1: x}` or TOML `nan` read "
+                "through it reach the Lua writer as nil / string keys")
+    values = set(FORMAT_VALUE.values())
+    n = 0
+    for crate in (ctx.lib, ctx.bin):
+        for f in crate.fn_list:
+            b = thir.body_of(f)
+            if not b:
+                continue
+            for node in thir.walk(b):
+                p = (callee_of(node) if node.get("k") == "Call" else None) or node.get("fn") or ""
+                if not isinstance(p, str) or p.split("::")[0] not in FORMAT_VALUE or p.split("::")[-1] not in ("from_str", "from_slice", "from_reader", "from_value"):
+                    continue
+                targs = [crate.ty_str(g) for g in node.get("gargs", [])]
+                doc = [t for t in targs if t in values]
+                if not doc:
+                    continue        # read into one of darklua's own types: typed by serde, nothing generic is lost here
+                n += 1
+                want = FORMAT_VALUE[p.split("::")[0]]
+                R.ob(rid, "%s|%s" % (f["path"].split("::<")[0][-70:], p.split("::")[0]), doc == [want], crate_where(ctx, crate, f, node),
+                     "%s instantiated at %s" % (p, doc[0]))
+    R.require(rid, "floor:sites", n >= 6, "", "%d deserializer sites reading a generic document" % n)
+
+
+def crate_where(ctx, crate, f, node):
+    try:
+        return "%s:%s" % (f.get("file", ""), node.get("ln", f.get("line", "")))
+    except Exception:
+        return ""
+
+
 def run(R, ctx):
     R.explanation = (
         "Guard-before-act rule on every place where a run-time string becomes a table key or field name, the keyword table of "
@@ -389,3 +428,4 @@ def run(R, ctx):
     casts(R, ctx)
     bracket(R, ctx)
     data_values(R, ctx)
+    native_value(R, ctx)
